@@ -292,16 +292,25 @@ Definition enc_fail (k i : N) (s : str) : val :=
 Definition enc_res {A} (f : A -> val) (r : res A) : val :=
   match r with Ok a => f a | Fail k i s => enc_fail k i s end.
 
-(* stream "parse": (atom table, text) -> [entries, rendered text] *)
+(* stream "parse": (atom table, text) -> entries *)
 Definition run_parse (i : list (str * str) * str) : val :=
   let '(tbl, t) := i in
-  enc_res (fun es => VL [VL (map enc_entry es); VS (render es)]) (parse (lookup tbl) t).
+  enc_res (fun es => VL (map enc_entry es)) (parse (lookup tbl) t).
 
-(* stream "withkw": (atom table, text, keyword lists) -> for every entry, for every keyword
-   list, the entry with_keywords returns *)
+(* stream "withkw": (atom table, text, keyword lists) -> for every entry: the entry and, for
+   every keyword list ks, [raw of with_keywords entry ks; "keywords = ks and every other field
+   is the entry's"] *)
+Definition opt_str_eqb (a b : option str) : bool :=
+  match a, b with Some x, Some y => str_eqb x y | None, None => true | _, _ => false end.
+Definition enc_withkw (e : entry) (ks : list str) : val :=
+  let e' := with_keywords e ks in
+  VL [VS (raw e');
+      VB ((lineno e' =? lineno e) && opt_str_eqb (pkg e') (pkg e) && str_eqb (comment e') (comment e)
+          && str_eqb (eol e') (eol e)
+          && kws_eqb (keywords e') (match pkg e with Some _ => ks | None => keywords e end))].
 Definition run_withkw (i : list (str * str) * str * list (list str)) : val :=
   let '(tbl, t, kss) := i in
-  enc_res (fun es => VL (map (fun e => VL (map (fun ks => enc_entry (with_keywords e ks)) kss)) es))
+  enc_res (fun es => VL (map (fun e => VL [enc_entry e; VL (map (enc_withkw e) kss)]) es))
           (parse (lookup tbl) t).
 
 (* stream "expand": (atom table, text, suggestion table, default suggestion) -> expanded text *)
